@@ -52,9 +52,12 @@ C04Cases ==
     \* route: the response is built by Response::new, or ("tmpl") from a template with a body of another length
     \* whose data is then replaced by with_data (declared or undeclared), status and threshold set afterwards
     [status : Statuses, len : C04Lens, declared : BOOLEAN, thr : C04Thrs, ver : {"1.0", "1.1"}, head : BOOLEAN,
-     te : C04TE, piece : {1, 100, 0}, route : {"new", "tmpl"}]
+     te : C04TE, piece : {1, 100, 0}, route : {"new", "tmpl"},
+     \* apphdr: a header the application adds that would change the framing if it reached the wire (odd letter case)
+     apphdr : {"none", "te-lower", "te-mixed-gzip", "conn-upper", "trailer-lower"}]
 C04Pick(c) == /\ (Tier # "quick" \/ (c.piece = 0 \/ (c.len \in {"8193", "thr"} /\ c.te = "absent")))
               /\ (c.route = "tmpl" => c.piece = 0)
+              /\ (c.apphdr # "none" => (c.route = "new" /\ c.piece = 0 /\ c.len \in {"1", "8193"} /\ c.thr \in {"default", "0"} /\ c.te \in {"absent", "chunked"}))
 GenC04(f) == ndJsonSerialize(f, SetToSeq({c \in C04Cases : C04Pick(c)}))
 
 \* ---- C19 product: header lists
